@@ -1,6 +1,9 @@
 """Property encodings over the product (monitors and state predicates)."""
 import z3
 from .bmc import BW
+from .roles import KINDS as _KINDS
+
+N_KINDS = len(_KINDS)
 
 WAITING, PENDING, DONE, FAILED, SKIPPED = 0, 1, 2, 3, 4
 
@@ -15,7 +18,7 @@ def init_common(prod, empty_env=True):
     for t in range(prod.T):
         cs.append(z3.Not(p[f'cvw{t}']))
     for i in range(cfg.n):
-        cs += [p[f'x{i}'] == 0, p[f'kind{i}'] >= 0, p[f'kind{i}'] < 7]
+        cs += [p[f'x{i}'] == 0, p[f'kind{i}'] >= 0, p[f'kind{i}'] < N_KINDS]
         if empty_env:
             cs.append(z3.Not(p[f'p{i}']))
             for f in prod.schema.fields_of(i):
